@@ -134,6 +134,8 @@ def ref_split_url(url):
 
 def _nice(url):
     # ';params' are a feature of a few schemes only (urllib's uses_params); elsewhere ';' is not generated
+    if url == "":
+        return True     # (a blank tab: every part is empty)
     return isinstance(url, str) and _NICE_URL.match(url) is not None and (
         ";" not in url or url.split(":", 1)[0] in ("http", "https", "ftp"))
 
@@ -299,6 +301,8 @@ def _title(rng):
 
 
 def _url(rng):
+    if rng.random() < 0.06:
+        return ""
     scheme = rng.choice(["http", "https", "ftp", "chrome-extension", "about+x"])
     host = rng.choice(["", "www.", "www.", "WWW."]) + rng.choice(["example.com", "a.b.c", "localhost", "www.example.org", "x", "www", "www.", "wwwx.com", "127.0.0.1"]) \
         + rng.choice(["", "", ":8080"])
